@@ -134,8 +134,40 @@ class Fixture:
                 self.defaults[n] = g['D_' + n] = Tok('D:' + n)
         self.src = sig_src(sig)
         exec(compile(self.src, '<c04-generated>', 'exec', dont_inherit=True), g)   # no inherited __future__.annotations
-        self.f0 = g['f']
-        self.f1 = beartype(self.f0)
+        # what is decorated: the function itself, a functools.wraps closure around it, or a class-based decorator object
+        # (functools.update_wrapper(self, f) + __call__(*a, **k)): the decorated callable must run exactly once too
+        import functools
+        import zlib
+        self.outer = []
+        self.target = ('func',) * 7 + ('wraps', 'callobj', 'callobj')
+        self.target = self.target[zlib.crc32(self.src.encode()) % len(self.target)]
+        f, outer = g['f'], self.outer
+        self.fn = g['f']          # the generated function itself (static facts are read off it)
+        if self.target == 'wraps':
+            inner = f
+
+            @functools.wraps(inner)
+            def closure(*a, **k):
+                outer.append(1)
+                return inner(*a, **k)
+            f = closure
+        elif self.target == 'callobj':
+            def make_deco():
+                class Deco:
+                    def __init__(self, fn):
+                        functools.update_wrapper(self, fn)
+                        self._fn = fn
+
+                    def __call__(self, *a, **k):
+                        outer.append(1)
+                        return self._fn(*a, **k)
+                return Deco
+            f = make_deco()(f)
+        self.f0 = f
+        if self.target == 'callobj':
+            # beartype may patch type(obj).__call__ of a callable object: the bare reference gets a class of its own
+            self.f0 = make_deco()(g['f'])
+        self.f1 = beartype(f)
 
     def _validator(self, name, uid):
         def check(obj):
@@ -165,6 +197,7 @@ class Fixture:
         from beartype.roar import BeartypeCallHintParamViolation, BeartypeCallHintReturnViolation
         del self.log[:]
         del self.calls[:]
+        del self.outer[:]
         self.bad, self.mode[0], self.recording = bad, mode, True
         try:
             r = fn(*args, **kwargs)
@@ -268,6 +301,9 @@ def oracle(fx: Fixture, bare_loc, out, log, calls, bad, mode):
     if len(calls) != 1:
         bads.append('body-not-run-once')
         return bads
+    if fx.target != 'func' and len(fx.outer) != 1:
+        bads.append('decorated-callable-not-run-once')
+        return bads
     if not same_locals(sig, calls[0], bare_loc):
         bads.append('arguments-changed')
     if mode == 'exc':
@@ -297,16 +333,16 @@ def static_view(fx: Fixture):
     from beartype._util.func.arg.utilfuncargiter import ArgKind, ArgMandatory, iter_func_args
     kn = {ArgKind.POSITIONAL_ONLY: 'posonly', ArgKind.POSITIONAL_OR_KEYWORD: 'flex', ArgKind.VARIADIC_POSITIONAL: 'varpos',
           ArgKind.KEYWORD_ONLY: 'kwonly', ArgKind.VARIADIC_KEYWORD: 'varkw'}
-    metas = list(iter_func_args(fx.f0, is_unwrap=False))
+    metas = list(iter_func_args(fx.fn, is_unwrap=False))
     it = [[kn[k], n] for k, n, _ in metas]
     dflt_ok = all((d is fx.defaults[n]) if n in fx.defaults else (d is ArgMandatory) for _, n, d in metas)
-    co = fx.f0.__code__
+    co = fx.fn.__code__
     nparams = co.co_argcount + co.co_kwonlyargcount + bool(co.co_flags & 4) + bool(co.co_flags & 8)
     facts = [str(co.co_argcount), str(co.co_posonlyargcount), str(co.co_kwonlyargcount), str(int(bool(co.co_flags & 4))),
-             str(int(bool(co.co_flags & 8))), list(co.co_varnames[:nparams]), str(len(fx.f0.__defaults__ or ()))]
+             str(int(bool(co.co_flags & 8))), list(co.co_varnames[:nparams]), str(len(fx.fn.__defaults__ or ()))]
     kwable = None
-    if fx.f1 is not fx.f0:
-        kwable = (fx.f1.__kwdefaults__ or {}).get('__beartype_args_name_keywordable')
+    if fx.f1 is not fx.f0 and fx.target != 'callobj':
+        kwable = (getattr(fx.f1, '__kwdefaults__', None) or {}).get('__beartype_args_name_keywordable')
     return it, dflt_ok, facts, (sorted(kwable) if kwable is not None else None)
 
 
